@@ -240,7 +240,10 @@ def check(run, items, label, profiles=("release",), count_only=False):
         short = q if len(q) < 300 else q[:120] + f" ...({q.count(',') + 1} ids)... " + q[-40:]
         d = parse_digest(a)
         if d is None:
-            run.violation(f"a bulk call did not return a result: {a[:120]}", q if len(q) < 100000 else short, a[:200])
+            # beyond the sizes the property's quantifier names, a refusal (`err`) is no verdict: the model answers, so the difference
+            # stands as a broken correspondence (reported without a failing input); a crash or a hang is a failing input
+            if not a.startswith("err"):
+                run.violation(f"a bulk call did not return: {a[:120]}", q if len(q) < 100000 else short, a[:200])
             continue
         n, s, x = exp
         closed = " 1 " in q
